@@ -216,9 +216,10 @@ theorem C07_monotone_guarded (p : Proto) (hcas : p.useCas = true) (hchk : p.chec
   exact C07_monotone p hcas hchk sched st hwf hfm
     (guard_noWrap hcas hchk hg sched _ (inv_init p st hwf) hfm) a b na ta ea nb tb eb qa qb ha hb hab
 
-/-- The finding, on the model of the code as it stands: counter at 2^32−2, two calls one after
+/-- The finding, on the model of the code as it stands (`codeProto = wrappingProto`,
+    `C07_wrap_is_code`): counter at 2^32−2, two calls one after
     the other; the first gets 4294967295, the second gets 0. -/
-theorem C07_finding_uint32_wrap : ¬ C07_monotone_full codeProto := by
+theorem C07_finding_uint32_wrap : ¬ C07_monotone_full wrappingProto := by
   intro h
   have := h [.read 0, .cas 0, .read 1, .cas 1]
     { entry := some { raw := "4294967294".toList, idx := 5 }, raft := 5 } (by decide) (by decide)
@@ -227,7 +228,7 @@ theorem C07_finding_uint32_wrap : ¬ C07_monotone_full codeProto := by
 
 /-- …and uniqueness: somebody (monotonically!) sets the counter to 2^32−1 after number 1 was
     handed out; the next two calls get 0 and then 1 again. -/
-theorem C07_finding_uint32_wrap_duplicate : ¬ C07_unique_full codeProto := by
+theorem C07_finding_uint32_wrap_duplicate : ¬ C07_unique_full wrappingProto := by
   intro h
   have := h [.read 0, .cas 0, .foreign "4294967295".toList, .read 1, .cas 1, .read 2, .cas 2]
     { entry := none, raft := 0 } (by decide) (by decide) 0 2 1 1 (by decide) (by decide) (by decide)
